@@ -4,7 +4,7 @@ From RW Require Import Base.Bytes Base.BytesFacts Fmt.Codec Fmt.CodecFacts Fmt.F
   Wal.CrashInv Wal.CrashFacts0 Wal.CrashFacts1 Wal.CrashFacts2 Wal.CrashFacts3 Wal.CrashFacts4 Wal.CrashFacts5
   Wal.CrashFacts6 Wal.CrashGlue Wal.CrashCalls1 Wal.CrashCalls2 Wal.CrashCalls3 Wal.CrashCalls4 Wal.CrashCalls5 Wal.CrashCalls6
   Wal.CrashCalls7 Wal.CrashCalls8 Wal.CrashCalls9 Wal.CrashCalls10 Wal.FaultSim Wal.FaultSim2 Wal.FaultInv Wal.FaultFacts2
-  Wal.FaultFacts3 Wal.FaultNames Wal.FaultStore Wal.FaultDelete Wal.FaultSteps Wal.FaultSeal Gen.Constants.
+  Wal.FaultFacts3 Wal.FaultNames Wal.FaultStore Wal.FaultDelete Wal.FaultSteps Gen.Constants.
 From Coq Require Import ZifyN ZifyNat ZifyBool.
 Open Scope N_scope.
 
@@ -14,7 +14,10 @@ Definition mut_post (c : cfg) (nb : N) (w' : wal) (d' : disk) (nom : spst) (alts
   (o : sop) (r : result) : Prop :=
   (r = ROk /\ exists nom', spec_accepts nom o = Some nom' /\ Mode c nb w' d' nom' defer /\
                            RD c nb d' (nom' :: app_op o alts) defer) \/
-  (r <> ROk /\ Mode c nb w' d' nom (dfr o defer) /\ RD c nb d' (alts ++ app_op o alts) (dfr o defer)).
+  (r <> ROk /\ Mode c nb w' d' nom (dfr o defer) /\ RD c nb d' (alts ++ app_op o alts) (dfr o defer)) \/
+  (* a stable Set reported as failed and found applied *)
+  (r <> ROk /\ exists k v n nom', o = OSet k v n /\ spec_accepts nom o = Some nom' /\ Mode c nb w' d' nom' defer /\
+                RD c nb d' (alts ++ app_op o alts) defer).
 
 Lemma incl_dfr o defer : incl defer (dfr o defer).
 Proof. destruct o; cbn; try apply incl_refl. intros x Hx; right; exact Hx. Qed.
@@ -27,26 +30,28 @@ Qed.
 Lemma Mode_mono c nb nb' w d nom defer defer' : nb <= nb' -> incl defer defer' ->
   Mode c nb w d nom defer -> Mode c nb' w d nom defer'.
 Proof.
-  intros Hn Hi [H|(Hcl & [(HL & Hsp)|[((tw & A & B & C & HL & HN) & Hsp)|(Hf & Hr & HRV)]])]; [left; exact H|right; split; [exact Hcl|]..].
+  intros Hn Hi [H|(Hcl & [(HL & Hsp)|(Hf & Hr & HRV)])]; [left; exact H|right; split; [exact Hcl|]..].
   - left. split; [eapply Live_mono; eauto|exact Hsp].
-  - right. left. split; [|exact Hsp]. exists tw. split; [exact A|]. split; [exact B|]. split; [exact C|]. split; [eapply LInv_mono; eauto|exact HN].
-  - right. right. split; [exact Hf|]. split; [exact Hr|]. eapply RV_mono; eauto.
+  - right. split; [exact Hf|]. split; [exact Hr|]. eapply RV_mono; eauto.
 Qed.
 
 Lemma post_mono c nb nb' w' d' nom alts defer o r : nb <= nb' ->
   mut_post c nb w' d' nom alts defer o r -> mut_post c nb' w' d' nom alts defer o r.
 Proof.
-  intros Hn [(A & nom' & B & C & D)|(A & B & C)]; [left|right].
+  intros Hn [(A & nom' & B & C & D)|[(A & B & C)|(A & k & v & n & nom' & B & B' & C & D)]]; [left|right; left|right; right].
   - split; [exact A|]. exists nom'. split; [exact B|]. split; [eapply Mode_mono; [exact Hn|apply incl_refl|exact C]|].
     eapply RD_mono; [exact Hn|apply incl_refl|apply incl_refl|exact D].
   - split; [exact A|]. split; [eapply Mode_mono; [exact Hn|apply incl_refl|exact B]|].
     eapply RD_mono; [exact Hn|apply incl_refl|apply incl_refl|exact C].
+  - split; [exact A|]. exists k, v, n, nom'. split; [exact B|]. split; [exact B'|].
+    split; [eapply Mode_mono; [exact Hn|apply incl_refl|exact C]|].
+    eapply RD_mono; [exact Hn|apply incl_refl|apply incl_refl|exact D].
 Qed.
 
 Lemma post_err_unchanged c nb w d nom alts defer o r : r <> ROk ->
   Mode c nb w d nom defer -> RD c nb d alts defer -> mut_post c nb w d nom alts defer o r.
 Proof.
-  intros Hr HM HRD. right. split; [exact Hr|]. split; [eapply Mode_mono; [apply N.le_refl|apply incl_dfr|exact HM]|].
+  intros Hr HM HRD. right. left. split; [exact Hr|]. split; [eapply Mode_mono; [apply N.le_refl|apply incl_dfr|exact HM]|].
   eapply RD_mono; [apply N.le_refl| |apply incl_dfr|exact HRD]. intros x Hx. apply in_or_app. left. exact Hx.
 Qed.
 
@@ -72,18 +77,6 @@ Proof. intros H. unfold store_logs. rewrite H. reflexivity. Qed.
 
 (* ------------------------------------------------------------------ *)
 (* StoreLogs / DeleteRange from the degraded modes (no settle needed)    *)
-Lemma store_seal c nb w e nom alts defer ls : Seal c nb w (e_disk e) -> sp_of (sh (e_disk e)) = nom -> In nom alts ->
-  exists r, store_logs c w ls e = (r, w, e) /\ mut_post c nb w (e_disk e) nom alts defer (OStore ls) r.
-Proof.
-  intros HS Hsp Hin. pose proof (Mode_seal c nb w _ nom defer HS Hsp) as HM.
-  assert (HRD : RD c nb (e_disk e) alts defer) by (apply (RD_seal c nb w _ alts defer HS); rewrite Hsp; exact Hin).
-  destruct ls as [|l0 ls'].
-  - exists ROk. split; [apply store_nil; destruct HM as [(K & _)|(K & _)]; [destruct HS as (tw & _ & _ & _ & HL & _); pose proof (LInv_closed _ _ _ _ HL) as X; cbn in X; congruence|exact K]|].
-    apply post_ok_noop; [apply store_nil_accepts|exact HM|exact HRD].
-  - destruct (seal_store c nb w e (l0 :: ls') HS ltac:(discriminate)) as (r & Hr & Hne). exists r. split; [exact Hr|].
-    apply post_err_unchanged; assumption.
-Qed.
-
 Lemma store_fail c nb w e nom alts defer ls :
   st_closed w = false -> st_failed w = true -> Mode c nb w (e_disk e) nom defer -> RD c nb (e_disk e) alts defer ->
   exists r, store_logs c w ls e = (r, w, e) /\ mut_post c nb w (e_disk e) nom alts defer (OStore ls) r.
@@ -104,7 +97,7 @@ Qed.
 
 Lemma Mode_fail c nb w d nom defer : st_closed w = false -> st_failed w = true -> st_rotate w = None -> RV c nb w d nom ->
   Mode c nb w d nom defer.
-Proof. intros A B C D. right. split; [exact A|]. right. right. auto. Qed.
+Proof. intros A B C D. right. split; [exact A|]. right. auto. Qed.
 
 (* ------------------------------------------------------------------ *)
 (* one mutating call                                                    *)
@@ -118,49 +111,33 @@ Proof.
   destruct o as [ls|mn mx|i| | |k v n|k|]; try discriminate.
   - (* StoreLogs *)
     destruct Hop as (Hok & HF). cbn [step_model].
-    destruct HM as [(K & _)|(_ & [(HLive & Hsp)|[(HS & Hsp)|(Hfl & Hrot & HRV)]])]; [congruence| | |].
+    destruct HM as [(K & _)|(_ & [(HLive & Hsp)|(Hfl & Hrot & HRV)])]; [congruence| |].
     + destruct (live_settle c nb w e nom alts defer Hc ltac:(lia) HLive Hsp Hin) as (w1 & e1 & Hset & Hcl1 & Hcase).
       rewrite Hset. cbn [ss_wal ss_env].
-      destruct Hcase as [(HL1 & Hr1 & Hsp1 & _)|(Hf1 & Hr1 & [(HS1 & Hsp1)|(Hfl1 & HRV1)] & HRD1)].
+      destruct Hcase as [(HL1 & Hr1 & Hsp1 & _)|(Hf1 & Hr1 & Hfl1 & HRV1 & HRD1)].
       * destruct (live_store c (nb + 1) w1 e1 nom alts defer ls Hc Hok HF ltac:(lia) HL1 Hr1 Hsp1 Hin) as (r & w' & e' & Hst & Hcl' & Hres).
         rewrite Hst. exists r, w', e'. split; [reflexivity|]. split; [exact Hcl'|]. replace (nb + 2) with (nb + 1 + 1) by lia.
         destruct Hres as [(-> & nom' & Hacc & HL' & Hsp')|(Hne & HM' & HRD')].
         -- eapply post_live_ok; eauto.
-        -- right. auto.
-      * destruct (store_seal c (nb + 1) w1 e1 nom alts defer ls HS1 Hsp1 Hin) as (r & Hst & Hpost). rewrite Hst.
-        exists r, w1, e1. split; [reflexivity|]. split; [exact Hcl1|]. eapply post_mono; [|exact Hpost]. lia.
+        -- right. left. auto.
       * destruct (store_fail c (nb + 1) w1 e1 nom alts defer ls Hcl1 Hfl1 (Mode_fail _ _ _ _ _ _ Hcl1 Hfl1 Hr1 HRV1) HRD1) as (r & Hst & Hpost). rewrite Hst.
         exists r, w1, e1. split; [reflexivity|]. split; [exact Hcl1|]. eapply post_mono; [|exact Hpost]. lia.
-    + assert (Hr : st_rotate w = None) by (destruct HS as (tw & _ & _ & K & _); exact K).
-      rewrite (settle_none c w e Hr). cbn [ss_wal ss_env].
-      destruct (store_seal c nb w e nom alts defer ls HS Hsp Hin) as (r & Hst & Hpost). rewrite Hst.
-      exists r, w, e. split; [reflexivity|]. split; [exact Hcl|]. eapply post_mono; [|exact Hpost]. lia.
     + rewrite (settle_none c w e Hrot). cbn [ss_wal ss_env].
       destruct (store_fail c nb w e nom alts defer ls Hcl Hfl (Mode_fail _ _ _ _ _ _ Hcl Hfl Hrot HRV) HRD) as (r & Hst & Hpost). rewrite Hst.
       exists r, w, e. split; [reflexivity|]. split; [exact Hcl|]. eapply post_mono; [|exact Hpost]. lia.
   - (* DeleteRange *)
     cbn [step_model]. cbn [sop_ok] in Hop.
-    assert (Hseal : forall nb1 w1 e1, nb1 + 1 <= nb + 2 -> nb1 + 1 < two64 -> Seal c nb1 w1 (e_disk e1) -> sp_of (sh (e_disk e1)) = nom -> st_closed w1 = false ->
-      exists r w' e', delete_range c w1 mn mx e1 = (r, w', e') /\ st_closed w' = false /\ mut_post c (nb + 2) w' (e_disk e') nom alts defer (ODelete mn mx) r).
-    { intros nb1 w1 e1 Hle Hlt HS1 Hsp1 Hcl1.
-      destruct (seal_delete c nb1 w1 e1 nom alts defer mn mx Hc Hop Hlt HS1 Hsp1 Hin) as (r & w' & e' & Hd & Hcl' & Hres).
-      exists r, w', e'. split; [exact Hd|]. split; [exact Hcl'|]. eapply post_mono; [exact Hle|]. exact Hres. }
-    destruct HM as [(K & _)|(_ & [(HLive & Hsp)|[(HS & Hsp)|(Hfl & Hrot & HRV)]])]; [congruence| | |].
+    destruct HM as [(K & _)|(_ & [(HLive & Hsp)|(Hfl & Hrot & HRV)])]; [congruence| |].
     + destruct (live_settle c nb w e nom alts defer Hc ltac:(lia) HLive Hsp Hin) as (w1 & e1 & Hset & Hcl1 & Hcase).
       rewrite Hset. cbn [ss_wal ss_env].
-      destruct Hcase as [(HL1 & Hr1 & Hsp1 & _)|(Hf1 & Hr1 & [(HS1 & Hsp1)|(Hfl1 & HRV1)] & HRD1)].
+      destruct Hcase as [(HL1 & Hr1 & Hsp1 & _)|(Hf1 & Hr1 & Hfl1 & HRV1 & HRD1)].
       * destruct (live_delete c (nb + 1) w1 e1 nom alts defer mn mx Hc Hop ltac:(lia) HL1 Hr1 Hsp1 Hin) as (r & w' & e' & Hst & Hcl' & Hres).
         rewrite Hst. exists r, w', e'. split; [reflexivity|]. split; [exact Hcl'|]. replace (nb + 2) with (nb + 1 + 1) by lia.
         destruct Hres as [(-> & nom' & Hacc & HL' & Hsp')|(Hne & HM' & HRD')].
         -- eapply post_live_ok; eauto.
-        -- right. auto.
-      * destruct (Hseal (nb + 1) w1 e1 ltac:(lia) ltac:(lia) HS1 Hsp1 Hcl1) as (r & w' & e' & Hd & Hcl' & Hpost). rewrite Hd.
-        exists r, w', e'. auto.
+        -- right. left. auto.
       * destruct (delete_fail c (nb + 1) w1 e1 nom alts defer mn mx Hcl1 Hfl1 (Mode_fail _ _ _ _ _ _ Hcl1 Hfl1 Hr1 HRV1) HRD1) as (r & Hst & Hpost). rewrite Hst.
         exists r, w1, e1. split; [reflexivity|]. split; [exact Hcl1|]. eapply post_mono; [|exact Hpost]. lia.
-    + assert (Hr : st_rotate w = None) by (destruct HS as (tw & _ & _ & K & _); exact K).
-      rewrite (settle_none c w e Hr). cbn [ss_wal ss_env].
-      destruct (Hseal nb w e ltac:(lia) ltac:(lia) HS Hsp Hcl) as (r & w' & e' & Hd & Hcl' & Hpost). rewrite Hd. exists r, w', e'. auto.
     + rewrite (settle_none c w e Hrot). cbn [ss_wal ss_env].
       destruct (delete_fail c nb w e nom alts defer mn mx Hcl Hfl (Mode_fail _ _ _ _ _ _ Hcl Hfl Hrot HRV) HRD) as (r & Hst & Hpost). rewrite Hst.
       exists r, w, e. split; [reflexivity|]. split; [exact Hcl|]. eapply post_mono; [|exact Hpost]. lia.
@@ -168,9 +145,12 @@ Proof.
     cbn [step_model ss_wal ss_env].
     destruct (set_step c nb w e nom alts defer k v n Hcl HM HRD Hin Hdef) as (r & e' & Hs & Hres). rewrite Hs.
     exists r, w, e'. split; [reflexivity|]. split; [exact Hcl|].
-    destruct Hres as [(-> & nom' & Hacc & HM' & HRD')|(Hne & Hd)].
+    destruct Hres as [(-> & nom' & Hacc & HM' & HRD')|[(Hne & Hd)|(Hne & nom' & Hacc & HM' & HRD')]].
     + eapply post_mono; [|left; split; [reflexivity|]; exists nom'; split; [exact Hacc|]; split; [exact HM'|exact HRD']]. lia.
     + rewrite Hd. eapply post_mono; [|apply post_err_unchanged; [exact Hne|exact HM|exact HRD]]. lia.
+    + eapply post_mono; [|right; right; split; [exact Hne|]; exists k, v, n, nom'; split; [reflexivity|]; split; [exact Hacc|]; split; [exact HM'|]]; [lia|].
+      eapply RD_mono; [apply N.le_refl| |apply incl_refl|exact HRD'].
+      intros x [<-|Hx]; apply in_or_app; right; [eapply in_app_op; eauto|exact Hx].
 Qed.
 
 (* ------------------------------------------------------------------ *)
@@ -243,8 +223,12 @@ Definition fop_run (c : cfg) (h : fstate) (f : option nat) (fx : fxmode) (o : so
         | None => {| fs_s := s'; fs_nom := fs_nom h; fs_alts := fs_alts h; fs_defer := fs_defer h; fs_ok := false |}
         end
     | _ =>
-        {| fs_s := s'; fs_nom := fs_nom h; fs_alts := fs_alts h ++ app_op o (fs_alts h);
-           fs_defer := dfr o (fs_defer h); fs_ok := fs_ok h && spst_eqb (observed s') (fs_nom h) |}
+        let nom1 := match o, spec_accepts (fs_nom h) o with
+                    | OSet _ _ _, Some nom' => if spst_eqb (observed s') nom' then nom' else fs_nom h
+                    | _, _ => fs_nom h
+                    end in
+        {| fs_s := s'; fs_nom := nom1; fs_alts := fs_alts h ++ app_op o (fs_alts h);
+           fs_defer := dfr o (fs_defer h); fs_ok := fs_ok h && spst_eqb (observed s') nom1 |}
     end
   else
     let '(r', _) := step_spec (fs_nom h) o in
@@ -273,26 +257,49 @@ Proof.
   - destruct (is_mutating o) eqn:Hmut.
     + destruct (mut_step c nb w ef (fs_nom h) (fs_alts h) (fs_defer h) o Hc Hop Hmut Hnb Hcl HM HRD Hin Hdo)
         as (r & w' & e' & Hst & Hcl' & Hpost). rewrite Hst.
-      destruct Hpost as [(-> & nom' & Hacc & HM' & HRD')|(Hr & HM' & HRD')].
-      * rewrite Hacc. unfold FInv. rewrite observed_wf. cbn [fs_ok fs_s fs_nom fs_alts fs_defer with_fault ss_env ss_wal e_fault e_disk].
+      set (s1 := with_fault {| ss_wal := w'; ss_env := e' |} None fx_none).
+      (* the nominal state after a failed call *)
+      set (nom1 := match o with
+                   | OSet k v n => match spec_accepts (fs_nom h) (OSet k v n) with
+                                   | Some nom' => if spst_eqb (observed s1) nom' then nom' else fs_nom h
+                                   | None => fs_nom h
+                                   end
+                   | _ => fs_nom h
+                   end).
+      assert (Hfin : forall nomx deferx, r <> ROk -> nom1 = nomx -> sp_good nomx -> In nomx (fs_alts h ++ app_op o (fs_alts h)) ->
+                Mode c (nb + 2) w' (e_disk e') nomx deferx -> incl deferx (dfr o (fs_defer h)) ->
+                RD c (nb + 2) (e_disk e') (fs_alts h ++ app_op o (fs_alts h)) (dfr o (fs_defer h)) ->
+                FInv c (nb + 2) {| fs_s := s1; fs_nom := nom1;
+                      fs_alts := fs_alts h ++ app_op o (fs_alts h); fs_defer := dfr o (fs_defer h);
+                      fs_ok := fs_ok h && spst_eqb (observed s1) nom1 |}).
+      { intros nomx deferx Hr En Hgx Hinx HMx Hix HRDx. rewrite En. unfold FInv, s1. rewrite observed_wf.
+        cbn [fs_ok fs_s fs_nom fs_alts fs_defer with_fault ss_env ss_wal e_fault e_disk].
+        rewrite (observed_Mode c (nb + 2) w' _ nomx deferx); [|exact HMx|exact Hcl'].
+        rewrite Hok, spst_eqb_refl. split; [reflexivity|]. split; [reflexivity|]. split; [exact Hgx|].
+        split; [exact Hinx|].
+        split; [apply Forall_app; split; [exact Hga|apply app_op_good; assumption]|].
+        split; [apply dfr_ok; assumption|]. split; [exact HRDx|]. eapply Mode_mono; [apply N.le_refl|exact Hix|exact HMx]. }
+      destruct Hpost as [(-> & nom' & Hacc & HM' & HRD')|[(Hr & HM' & HRD')|(Hr & k & v & n & nom' & -> & Hacc & HM' & HRD')]].
+      * rewrite Hacc. unfold FInv, s1. rewrite observed_wf. cbn [fs_ok fs_s fs_nom fs_alts fs_defer with_fault ss_env ss_wal e_fault e_disk].
         rewrite (observed_Mode c (nb + 2) w' _ nom' (fs_defer h)); [|exact HM'|exact Hcl'].
         rewrite Hok, spst_eqb_refl. split; [reflexivity|]. split; [reflexivity|].
         split; [eapply accepts_good; eauto|]. split; [left; reflexivity|].
         split; [constructor; [eapply accepts_good; eauto|apply app_op_good; assumption]|]. split; [exact Hdo|]. split; [exact HRD'|exact HM'].
-      * assert (Ebr : forall (X : fstate), match r with ROk => X | _ =>
-                   {| fs_s := with_fault {| ss_wal := w'; ss_env := e' |} None fx_none; fs_nom := fs_nom h;
-                      fs_alts := fs_alts h ++ app_op o (fs_alts h); fs_defer := dfr o (fs_defer h);
-                      fs_ok := fs_ok h && spst_eqb (observed (with_fault {| ss_wal := w'; ss_env := e' |} None fx_none)) (fs_nom h) |} end =
-                   {| fs_s := with_fault {| ss_wal := w'; ss_env := e' |} None fx_none; fs_nom := fs_nom h;
-                      fs_alts := fs_alts h ++ app_op o (fs_alts h); fs_defer := dfr o (fs_defer h);
-                      fs_ok := fs_ok h && spst_eqb (observed (with_fault {| ss_wal := w'; ss_env := e' |} None fx_none)) (fs_nom h) |}).
-        { intros X. destruct r; try reflexivity. congruence. }
-        rewrite Ebr. unfold FInv. rewrite observed_wf. cbn [fs_ok fs_s fs_nom fs_alts fs_defer with_fault ss_env ss_wal e_fault e_disk].
-        rewrite (observed_Mode c (nb + 2) w' _ (fs_nom h) (dfr o (fs_defer h))); [|exact HM'|exact Hcl'].
-        rewrite Hok, spst_eqb_refl. split; [reflexivity|]. split; [reflexivity|]. split; [exact Hgn|].
-        split; [apply in_or_app; left; exact Hin|].
-        split; [apply Forall_app; split; [exact Hga|apply app_op_good; assumption]|].
-        split; [apply dfr_ok; assumption|]. split; [exact HRD'|exact HM'].
+      * assert (En : nom1 = fs_nom h).
+        { (* readers see the old state: the nominal state stays *)
+          pose proof (observed_Mode c (nb + 2) w' e' (fs_nom h) (dfr o (fs_defer h)) HM' Hcl') as Hobs.
+          unfold nom1. destruct o; try reflexivity. destruct (spec_accepts (fs_nom h) _) as [nomy|] eqn:Ey; [|reflexivity].
+          unfold s1. rewrite observed_wf, Hobs. destruct (spst_eqb (fs_nom h) nomy) eqn:Eq; [|reflexivity].
+          apply spst_eqb_eq in Eq. symmetry. exact Eq. }
+        destruct r; try congruence;
+          (apply (Hfin (fs_nom h) (dfr o (fs_defer h))); [discriminate|exact En|exact Hgn|apply in_or_app; left; exact Hin|exact HM'|apply incl_refl|exact HRD']).
+      * assert (En : nom1 = nom').
+        { pose proof (observed_Mode c (nb + 2) w' e' nom' (fs_defer h) HM' Hcl') as Hobs.
+          unfold nom1. rewrite Hacc. unfold s1. rewrite observed_wf, Hobs, spst_eqb_refl. reflexivity. }
+        assert (HRD2 : RD c (nb + 2) (e_disk e') (fs_alts h ++ app_op (OSet k v n) (fs_alts h)) (dfr (OSet k v n) (fs_defer h))).
+        { eapply RD_mono; [apply N.le_refl|apply incl_refl|apply incl_dfr|exact HRD']. }
+        destruct r; try congruence;
+          (apply (Hfin nom' (fs_defer h)); [discriminate|exact En|eapply accepts_good; eauto|apply in_or_app; right; eapply in_app_op; eauto|exact HM'|apply incl_dfr|exact HRD2]).
     + (* a read *)
       assert (Hrd : is_read o) by (destruct o; try exact I; try discriminate; congruence).
       destruct (read_step c nb w ef (fs_nom h) o Hc Hop Hnb Hrd (Mode_RV _ _ _ _ _ _ HM Hcl) Hcl Hgn) as (r & e' & Hst & Hd & _ & Hres).
